@@ -236,6 +236,49 @@ where getB0 (d : Bytes) : Nat := (d.headD 0).toNat
 
 inductive Next | more (st : St) | finished (st : St) | unsupported
 
+/-- the if-chain of `_run_ops` on an op code that is not a push and is evaluated (executing branch, or OP_IF..OP_ENDIF);
+    `st` already has the byte consumed, the index advanced and the op counted -/
+def dispatch (cx : Ctx) (t : Nat) (st : St) : Option Next :=
+  match kind t with
+  | .checksig | .checkmultisig => some .unsupported
+  | .cltv => (cltv cx st.stack).map fun _ => .more st
+  | .csv => (csv cx st.stack).map fun _ => .more st
+  | .digit n => some (.more { st with stack := enc (n : Nat) :: st.stack })
+  | .codesep => some (.more st)
+  | .opIf | .opNotif =>
+    -- op_if / op_notif
+    if !(st.cond.all id) then some (.more { st with cond := false :: st.cond })
+    else
+      match st.stack with
+      | [] => none
+      | top :: r =>
+        if cx.segwit && Core.has cx.flags Core.FLAG_MINIMALIF && !(top == [] || top == [1]) then none
+        else
+          let c := toBool top
+          some (.more { st with stack := r, cond := (if t = 0x64 then !c else c) :: st.cond })
+  | .opElse =>
+    match st.cond with
+    | c :: c2 :: r => some (.more { st with cond := (!c) :: c2 :: r })
+    | _ => none
+  | .opEndif =>
+    match st.cond with
+    | _ :: c2 :: r => some (.more { st with cond := c2 :: r })
+    | _ => none
+  | .nop => some (.more st)
+  | .nopN =>
+    if Core.has cx.flags Core.FLAG_DISCOURAGE_UPGRADABLE_NOPS then none else some (.more st)
+  | .operation =>
+    if t = 0xad ∨ t = 0xaf then some .unsupported   -- CHECKSIGVERIFY / CHECKMULTISIGVERIFY expand to unsupported op codes
+    else
+      match operation cx t st.stack st.alt with
+      | none => none
+      | some (.done s a) => some (.more { st with stack := s, alt := a })
+      | some (.expand s a r) =>
+        some (.more { st with stack := s, alt := a, scriptIndex := st.scriptIndex - r.length,
+                              opCodeNum := st.opCodeNum - r.length,
+                              s := r.map UInt8.ofNat ++ st.s })
+  | .unknown => none
+
 /-- one pass through the `while True:` of `_run_ops` -/
 def iter (cx : Ctx) (st : St) : Option Next :=
   let st := { st with scriptIndex := st.scriptIndex + 1 }
@@ -263,46 +306,7 @@ def iter (cx : Ctx) (st : St) : Option Next :=
           if Gen.Script.DISABLED_OP_CODES.contains t then none
           else if skip && !(Gen.Script.EVALUATED_WHEN_UNEXECUTED_LO ≤ t && t < Gen.Script.EVALUATED_WHEN_UNEXECUTED_HI) then
             some (.more st)
-          else
-            match kind t with
-            | .checksig | .checkmultisig => some .unsupported
-            | .cltv => (cltv cx st.stack).map fun _ => .more st
-            | .csv => (csv cx st.stack).map fun _ => .more st
-            | .digit n => some (.more { st with stack := enc (n : Nat) :: st.stack })
-            | .codesep => some (.more st)
-            | .opIf | .opNotif =>
-              -- op_if / op_notif
-              if !(st.cond.all id) then some (.more { st with cond := false :: st.cond })
-              else
-                match st.stack with
-                | [] => none
-                | top :: r =>
-                  if cx.segwit && Core.has cx.flags Core.FLAG_MINIMALIF && !(top == [] || top == [1]) then none
-                  else
-                    let c := toBool top
-                    some (.more { st with stack := r, cond := (if t = 0x64 then !c else c) :: st.cond })
-            | .opElse =>
-              match st.cond with
-              | c :: c2 :: r => some (.more { st with cond := (!c) :: c2 :: r })
-              | _ => none
-            | .opEndif =>
-              match st.cond with
-              | _ :: c2 :: r => some (.more { st with cond := c2 :: r })
-              | _ => none
-            | .nop => some (.more st)
-            | .nopN =>
-              if Core.has cx.flags Core.FLAG_DISCOURAGE_UPGRADABLE_NOPS then none else some (.more st)
-            | .operation =>
-              if t = 0xad ∨ t = 0xaf then some .unsupported   -- CHECKSIGVERIFY / CHECKMULTISIGVERIFY expand to unsupported op codes
-              else
-                match operation cx t st.stack st.alt with
-                | none => none
-                | some (.done s a) => some (.more { st with stack := s, alt := a })
-                | some (.expand s a r) =>
-                  some (.more { st with stack := s, alt := a, scriptIndex := st.scriptIndex - r.length,
-                                        opCodeNum := st.opCodeNum - r.length,
-                                        s := r.map UInt8.ofNat ++ st.s })
-            | .unknown => none
+          else dispatch cx t st
 
 inductive Out | ok (stack : List Bytes) | refused | unsupported
   deriving DecidableEq, Repr
